@@ -96,7 +96,14 @@ def _check_sequence(w):
             rev = [n.name for n in reversed(g)]
             if rev != ref[::-1]:
                 raise Violation("reversed_wrong", (gname, rev, ref[::-1]))
-            for i in range(len(ref)):
+            # index access in three patterns, so that any position memo kept by the container between calls is
+            # consulted from a different place than where it was left: last index first (right after the previous
+            # event), then descending, then ascending; the final access of this check rotates over the positions
+            cnt = w.check_count = getattr(w, "check_count", 0) + 1
+            order = list(range(len(ref) - 1, -1, -1)) + list(range(len(ref)))
+            if ref:
+                order.append((cnt // 2) % len(ref) if cnt % 2 else min(1, len(ref) - 1))
+            for i in order:
                 if g[i].name != ref[i] or g[i - len(ref)].name != ref[i]:
                     raise Violation("index_wrong", (gname, i, g[i].name, g[i - len(ref)].name, ref[i]))
             for nm, n in w.nodes.items():
